@@ -2659,4 +2659,142 @@ theorem lit_true_aind (a : Asg) (sid : ℤ) (l : ℤ) :
 
 end Substitution
 
+
+/-! # Sixth batch: `ishift`, `iget_between`, `gtopo`, pebbling in Skolem form -/
+
+/-- every element plus a constant -/
+def ishift (s : ISeq) (o : ℤ) : ISeq := s.map (fun x => x + o)
+
+/-- `ilen(ishift(s, o)) == ilen(s)` -/
+theorem ilen_ishift (s : ISeq) (o : ℤ) : ilen (ishift s o) = ilen s := by simp [ilen, ishift]
+
+/-- `o == 0 -> ishift(s, o) == s` -/
+theorem ishift_zero (s : ISeq) (o : ℤ) : o = 0 → ishift s o = s := by
+  rintro rfl; simp [ishift]
+
+/-- `And(o >= 0, Or(ilen(s) == 0, minof(s) >= 1)) ->
+    And(Not(haszero(ishift(s, o))), maxabs(ishift(s, o)) <= maxabs(s) + o)` -/
+theorem ishift_pos (s : ISeq) (o : ℤ) : (o ≥ 0 ∧ (ilen s = 0 ∨ minof s ≥ 1)) →
+    (¬ haszero (ishift s o) ∧ maxabs (ishift s o) ≤ maxabs s + o) := by
+  rintro ⟨ho, h⟩
+  have hpos : ∀ x ∈ s, 1 ≤ x := by
+    intro x hx
+    rcases h with h | h
+    · rw [nil_of_length_zero s h] at hx; cases hx
+    · exact le_trans h (minof_le s x hx)
+  constructor
+  · unfold haszero ishift
+    intro h0
+    obtain ⟨x, hx, hx0⟩ := List.mem_map.mp h0
+    have := hpos x hx
+    omega
+  · have hb : 0 ≤ maxabs s + o := by have := maxabs_nonneg' s; omega
+    rw [maxabs_le_iff _ _ hb]
+    intro y hy
+    unfold ishift at hy
+    obtain ⟨x, hx, rfl⟩ := List.mem_map.mp hy
+    have h1 := hpos x hx
+    have h2 := natAbs_le_maxabs s x hx
+    omega
+
+/-- `And(0 <= i, i < ilen(s)) -> iget(ishift(s, o), i) == iget(s, i) + o` -/
+theorem iget_ishift (s : ISeq) (o i : ℤ) : (0 ≤ i ∧ i < ilen s) →
+    iget (ishift s o) i = iget s i + o := by
+  rintro ⟨h0, h1⟩
+  unfold ilen at h1
+  have hlt : i.toNat < s.length := by omega
+  unfold iget ishift
+  rw [List.getD_eq_getElem?_getD, List.getD_eq_getElem?_getD, List.getElem?_map,
+    List.getElem?_eq_getElem hlt]
+  rfl
+
+/-- `And(0 <= i, i < ilen(s)) -> And(minof(s) <= iget(s, i), iget(s, i) <= maxof(s))` -/
+theorem iget_between (s : ISeq) (i : ℤ) : (0 ≤ i ∧ i < ilen s) →
+    (minof s ≤ iget s i ∧ iget s i ≤ maxof s) := by
+  rintro ⟨h0, h1⟩
+  have := iget_mem s i h0 h1
+  exact ⟨minof_le s _ this, le_maxof s _ this⟩
+
+/-! ## abstract digraph views: `preds`, `outdeg`, `gorder` are ARBITRARY functions (uninterpreted in z3) -/
+
+section Pebbling
+
+variable (preds : ℤ → ℤ → ISeq) (outdeg : ℤ → ℤ → ℤ) (gorder : ℤ → ℤ)
+
+/-- every predecessor list holds vertices `1 ≤ p < v` -/
+def gtopo (gid : ℤ) : Prop := ∀ v p : ℤ, p ∈ preds gid v → 1 ≤ p ∧ p < v
+
+/-- out-degree 0 ⇔ the vertex is nobody's predecessor (for the vertices `1..gorder`); only a statement
+    about the graph views -/
+def gsinkok (gid : ℤ) : Prop :=
+  ∀ v : ℤ, (1 ≤ v ∧ v ≤ gorder gid) →
+    (outdeg gid v = 0 ↔ ∀ w : ℤ, (1 ≤ w ∧ w ≤ gorder gid) → v ∉ preds gid w)
+
+/-- `And(gtopo(gid), ilen(P) > 0) -> And(minof(P) >= 1, maxof(P) < v)`, `P = preds(gid, v)` -/
+theorem gtopo_def (gid v : ℤ) : (gtopo preds gid ∧ ilen (preds gid v) > 0) →
+    (minof (preds gid v) ≥ 1 ∧ maxof (preds gid v) < v) := by
+  rintro ⟨ht, hl⟩
+  have hne : preds gid v ≠ [] := by intro h; rw [h] at hl; simp [ilen] at hl
+  exact ⟨(ht v _ (minof_mem _ hne)).1, (ht v _ (maxof_mem _ hne)).2⟩
+
+/-- `count a P = ilen P` iff every literal of `P` is true (repetitions are counted on both sides) -/
+theorem count_eq_ilen_iff (a : Asg) (s : ISeq) : count a s = ilen s ↔ ∀ l ∈ s, lit_true a l := by
+  unfold count countTrue ilen lit_true
+  rw [← List.countP_eq_length]
+  omega
+
+/-- pebbling axioms of vertex `w` (variable of vertex `w` is `w`) -/
+def pebax (a : Asg) (gid w : ℤ) : Prop :=
+  (count a (preds gid w) = ilen (preds gid w) → lit_true a w) ∧ (outdeg gid w = 0 → ¬ lit_true a w)
+
+/-- L12 on the graph views (same argument as design_probes/Pebbling.lean `pebbling_unsat`) -/
+theorem pebbling_exists (a : Asg) (gid : ℤ)
+    (hn : gorder gid ≥ 1) (ht : gtopo preds gid) (hs : gsinkok preds outdeg gorder gid) :
+    ∃ w : ℤ, 1 ≤ w ∧ w ≤ gorder gid ∧ ¬ pebax preds outdeg a gid w := by
+  by_contra hno
+  push Not at hno
+  have all : ∀ m : ℕ, ∀ v : ℤ, v.toNat ≤ m → 1 ≤ v → v ≤ gorder gid → lit_true a v := by
+    intro m
+    induction m with
+    | zero => intro v hv h1 _; omega
+    | succ m ih =>
+      intro v hv h1 h2
+      apply (hno v h1 h2).1
+      rw [count_eq_ilen_iff]
+      intro p hp
+      obtain ⟨hp1, hp2⟩ := ht v p hp
+      exact ih p (by omega) hp1 (by omega)
+  have htrue := all (gorder gid).toNat (gorder gid) le_rfl hn le_rfl
+  have hsink : outdeg gid (gorder gid) = 0 := by
+    rw [hs (gorder gid) ⟨hn, le_rfl⟩]
+    rintro w ⟨_, hw⟩ hmem
+    have := (ht w _ hmem).2
+    omega
+  exact (hno (gorder gid) hn le_rfl).2 hsink htrue
+
+open Classical in
+/-- z3 Skolem function `pebwit(a, gid)` -/
+noncomputable def pebwit (a : Asg) (gid : ℤ) : ℤ :=
+  if h : ∃ w : ℤ, 1 ≤ w ∧ w ≤ gorder gid ∧ ¬ pebax preds outdeg a gid w
+  then Classical.choose h else 0
+
+/-- `And(gorder(gid) >= 1, gtopo(gid), gsinkok(gid)) -> And(1 <= w, w <= gorder(gid), Not(ax))`,
+    `w = pebwit(a, gid)`, `ax = And(Implies(count(a, P) == ilen(P), lit_true(a, w)),
+    Implies(outdeg(gid, w) == 0, Not(lit_true(a, w))))`, `P = preds(gid, w)` -/
+theorem pebbling_skolem (a : Asg) (gid : ℤ) :
+    (gorder gid ≥ 1 ∧ gtopo preds gid ∧ gsinkok preds outdeg gorder gid) →
+    (1 ≤ pebwit preds outdeg gorder a gid ∧ pebwit preds outdeg gorder a gid ≤ gorder gid ∧
+     ¬ ((count a (preds gid (pebwit preds outdeg gorder a gid)) =
+            ilen (preds gid (pebwit preds outdeg gorder a gid)) →
+          lit_true a (pebwit preds outdeg gorder a gid)) ∧
+        (outdeg gid (pebwit preds outdeg gorder a gid) = 0 →
+          ¬ lit_true a (pebwit preds outdeg gorder a gid)))) := by
+  rintro ⟨hn, ht, hs⟩
+  have h := pebbling_exists preds outdeg gorder a gid hn ht hs
+  unfold pebwit
+  rw [dif_pos h]
+  exact Classical.choose_spec h
+
+end Pebbling
+
 end CnfSem
